@@ -75,4 +75,8 @@ package receiver
 //@   lockcheck
 //@   ensures tokens: ghost_held == old(ghost_held) + ite(r0 == nil, 1, 0)
 //@   ensures corrupt_remembered: ghost_ncorrupt > old(ghost_ncorrupt) ==> r0 != nil && d.last.FullName == ni.FullName
+//@   after_call snapshot.LoadData#0 ghost loc_undecodable := ite(ret1 != nil, 1, 0)
+//@   assumes decode_flag_starts_at_zero: ghost_loc_undecodable == 0
+//@   ensures every_undecodable_blob_is_marked_and_remembered: ghost_loc_undecodable == 1 ==> r0 != nil && ghost_ncorrupt == old(ghost_ncorrupt) + 1 && d.last.FullName == ni.FullName
+//@   at_call receiver.(*Receiver).MarkCorrupt#0 assert marks_this_blob: sameSlice(arg1, ni.FullName)
 //@   at_call receiver.(*Receiver).MarkCorrupt#0 assert decompress_token_released: ghost_held == old(ghost_held) + 1
